@@ -82,8 +82,11 @@ EXT_LANG = {".py": PY, ".ts": TS, ".tsx": TS, ".js": JS, ".jsx": JS, ".rs": RS}
 EXTS = [".py", ".PY", ".Py", ".ts", ".TS", ".tsx", ".TSX", ".js", ".JS", ".jsx", ".Jsx", ".rs", ".RS", ".Rs",
         ".java", ".go", ".txt", ".md", ".json", ".yaml", ".toml", ".sh", ".py.txt", ".rs.bak", ".ts.orig", ""]
 SHEBANGS = {"py3": "#!/usr/bin/env python3", "py": "#!/usr/bin/python", "sh": "#!/bin/sh", "node": "#!/usr/bin/env node",
-            "copyq": "#!/usr/bin/env copyq"}
+            "copyq": "#!/usr/bin/env copyq",
+            # first lines that mention python but are NOT a shebang (no "#!"): the file stays of unrecognised type
+            "pytext": "python-3.11.4", "pycmd": "python3 -m venv .venv", "pycomment": "# python helper, run with python3"}
 PY_SHEBANGS = {"py3", "py"}
+NOT_SHEBANGS = ("pytext", "pycmd", "pycomment")
 
 
 def family_of(rule_id: str) -> str:
@@ -297,7 +300,7 @@ def check_lang(case) -> Case:
 def lang_cells():
     cells = []
     for ext in EXTS:
-        sbs = [None] if ext else [None] + list(SHEBANGS)
+        sbs = [None] + list(SHEBANGS) if not ext else ([None] + list(NOT_SHEBANGS) if ext.lower() in (".txt", ".md") else [None])
         for sb in sbs:
             for i, (fam, lang) in enumerate(BAITS):
                 cells.append({"kind": "lang", "ext": ext, "shebang": sb, "bait": [fam, lang], "var": i % 2})
